@@ -120,6 +120,19 @@ EXTRA_TEXT = {
     "C14": " C14.names (see C10). P.compile-history.",
     "C20": " C20.parse.history: with the PLY automaton cut, Parse(t1); Parse(t2) on one parser converts the offsets of t2 with the line table of t2 (every order of three of four texts with different line structure); bounded end-to-end part on one parser / one Compiler.",
 }
+EXTRA3 = {
+    "C03": " Aggregate arguments by value: the CALL arm hands the callee a value equal to the argument that shares no array / struct container with the caller's (the callee stub writes into everything it receives; the caller's value is unchanged), for int[2], int[2][2], struct, nested struct.",
+    "C15": " Stores never make two variables share an array or struct: VM.step.STORE / STORE_ARRAY / STORE_MEMBER.no-sharing-with-the-source for every scope and aggregate type, IR.opt.las.aggregates (such loads are not forwarded), and E2E.scalar programs in which a local assigned from / to a global array is written afterwards.",
+    "C12": " The two branches of an if are disjoint scopes (C12.scopes.branches-disjoint), also for declarations made directly in a branch without braces.",
+    "C07": " C07.const-range: any integer constant is refused or becomes a valid signed 32-bit immediate with the same bit pattern; C07.function-end: a function with a result that can fall off its end is refused; C06.sem.ReturnInstruction over declared result x returned value.",
+    "C04": " C04.construct.arity (every argument list whose component total differs from the constructed type is rejected; matrices from row vectors), C04.construct.scalar (T(x) is the conversion), C04.affix (++/-- on vectors and matrices rejected), integer vectors divide like integer scalars, operands of different component types in both orders.",
+    "C19": " Memory limits for every (min, max) including max = 0.",
+    "C20": " C20.map.sequence: the answer to a line query does not depend on the queries made before it on the same mapping.",
+    "C06": " C06.sem.*.translates: the operators of the backend's own opcode table on int / uint / float, argument loads and type-matching returns must be translated (refusal is acceptable only outside that subset). Known finding D24 (C06.chain): the VM's integers are unbounded, the module wraps.",
+    "C01": " Known finding D25: a side effect in the index of a compound-assignment target happens twice.",
+}
+for _k, _v in EXTRA3.items():
+    EXTRA_TEXT[_k] = EXTRA_TEXT.get(_k, "") + _v
 GEN_TEXT = " E2E.generated.* (sampled, reported as bounded, never counted as proved): a seeded generator (contracts/gen_c.py) writes scalar-core programs -- helpers, globals, arrays, nested loops with break/continue, all operator forms -- and each is compiled by the real compiler and run by the real VM on SYMBOLIC inputs against the reference interpreter, so each holds for all inputs of its program; 64 programs in the quick tier, 1600 more in the thorough tier."
 for _k in ("C01", "C02", "C03", "C05", "C08", "C14"):
     EXTRA_TEXT[_k] = EXTRA_TEXT.get(_k, "") + GEN_TEXT
